@@ -45,7 +45,7 @@ DTRoundCells == {[k |-> "PlainDateTime.round", x |-> x, u |-> u, mode |-> m] :
                    x \in {DT(Date(275760, 9, 13), TLast), DT(Date(275760, 9, 13), Time(12, 0, 0, 0, 0, 0)), DT(Date(275760, 9, 12), TLast), DT(Date(-271821, 4, 19), T1), DT(Date(-271821, 4, 19), Time(12, 0, 0, 0, 0, 0)), DT(Date(-271821, 4, 20), T1)},
                    u \in {"day", "hour", "minute", "second", "millisecond", "microsecond"}, m \in {"ceil", "floor", "halfExpand", "trunc"}}
 DateToDTCells == {[k |-> "PlainDate.toPlainDateTime", n |-> n, t |-> t] : n \in {MinDay, MinDay + 1, MaxDay}, t \in {Midnight, T1, TLast}}
-DateConvCells == {[k |-> kk, n |-> n, t |-> t] : kk \in {"PlainDateTime.fromDateAndTime"}, n \in {MinDay, MinDay + 1, MaxDay}, t \in {Midnight, T1, TLast}}
+DateConvCells == {[k |-> kk, n |-> n, t |-> t] : kk \in {"PlainDateTime.fromDateAndTime", "PlainDateTime.withTime"}, n \in {MinDay, MinDay + 1, MaxDay}, t \in {Midnight, T1, TLast}}
                  \cup {[k |-> "PlainDateTime.fromPlainDate", n |-> n, t |-> Midnight] : n \in {MinDay, MinDay + 1, MaxDay, 0}}
 StrCells == {[k |-> "PlainDate.fromStr", n |-> n] : n \in EdgeDays}
             \cup {[k |-> kk, n |-> n, t |-> t] : kk \in {"PlainDateTime.fromStr", "Instant.fromStr"}, n \in {MinDay - 1, MinDay, MinDay + 1, MaxDay, MaxDay + 1}, t \in {Midnight, T1, TLast}}
@@ -93,7 +93,7 @@ Call(c) ==
                                      args |-> [recv |-> DTJ(c.x), dur |-> NsD(IF c.sub THEN Neg(c.ns) ELSE c.ns)], out |-> OutDT(AddDT(c.x, NsD(c.ns), "constrain"))]
     [] c.k = "PlainDateTime.round" -> [op |-> "PlainDateTime.round", args |-> [recv |-> DTJ(c.x), st |-> [smallest |-> c.u, inc |-> 1, mode |-> c.mode]], out |-> OutDT(RoundDT(c.x, c.u, 1, c.mode))]
     [] c.k = "PlainDate.toPlainDateTime" -> [op |-> "PlainDate.toPlainDateTime", args |-> [recv |-> CivilFromDays(c.n), time |-> c.t], out |-> OutDT(DTNew(DT(CivilFromDays(c.n), c.t)))]
-    [] c.k \in {"PlainDateTime.fromDateAndTime", "PlainDateTime.fromPlainDate"} -> [op |-> c.k, args |-> [recv |-> CivilFromDays(c.n), time |-> c.t], out |-> OutDT(DTNew(DT(CivilFromDays(c.n), c.t)))]
+    [] c.k \in {"PlainDateTime.fromDateAndTime", "PlainDateTime.fromPlainDate", "PlainDateTime.withTime"} -> [op |-> c.k, args |-> [recv |-> CivilFromDays(c.n), time |-> c.t], out |-> OutDT(DTNew(DT(CivilFromDays(c.n), c.t)))]
     [] c.k = "PlainDate.fromStr" -> [op |-> c.k, args |-> [d |-> CivilFromDays(c.n)], out |-> IF InDateRange(c.n) THEN Ok(CivilFromDays(c.n)) ELSE ErrRange]
     [] c.k = "PlainDateTime.fromStr" -> [op |-> c.k, args |-> [dt |-> DTJ(DT(CivilFromDays(c.n), c.t))], out |-> OutDT(DTNew(DT(CivilFromDays(c.n), c.t)))]
     [] c.k = "Instant.fromStr" -> [op |-> c.k, args |-> [dt |-> DTJ(DT(CivilFromDays(c.n), c.t))], out |-> InstantNew(Add(Mul(DayNsBig, FromInt(c.n)), TimeNsOf(c.t)))]
